@@ -7,6 +7,7 @@ import (
 	"crypto/x509"
 	"net"
 	"net/url"
+	"os"
 )
 
 // YieldFn is called (when set) before every RuntimeState mutex acquisition and
@@ -42,3 +43,43 @@ var (
 	// observing hook (the function goes on): every certificate event handed to the notifier
 	EventPublishCert func(certType string, certData []byte)
 )
+
+// ---- the keymaster client's disk (cmd/keymaster file writes are routed here by the generator) -----------------
+
+// ClientFile is what the client may do with a file it created.
+type ClientFile interface {
+	Write(b []byte) (int, error)
+	WriteString(s string) (int, error)
+	Chmod(mode os.FileMode) error
+	Sync() error
+	Close() error
+	Name() string
+}
+
+// ClientDisk, when set, stands between the client and the file system (faults: disk full, ...).
+var ClientDisk interface {
+	WriteFile(name string, data []byte, perm os.FileMode) error
+	Create(name string) (ClientFile, error)
+	Chmod(name string, mode os.FileMode) error
+}
+
+func ClientWriteFile(name string, data []byte, perm os.FileMode) error {
+	if d := ClientDisk; d != nil {
+		return d.WriteFile(name, data, perm)
+	}
+	return os.WriteFile(name, data, perm)
+}
+
+func ClientCreate(name string) (ClientFile, error) {
+	if d := ClientDisk; d != nil {
+		return d.Create(name)
+	}
+	return os.Create(name)
+}
+
+func ClientChmod(name string, mode os.FileMode) error {
+	if d := ClientDisk; d != nil {
+		return d.Chmod(name, mode)
+	}
+	return os.Chmod(name, mode)
+}
